@@ -69,9 +69,11 @@ TxObserved(ev) ==
           haswit |-> ev.haswit, vin |-> ev.vin, vout |-> ev.vout, viaopt |-> IF "viaopt" \in DOMAIN ev THEN ev.viaopt ELSE TRUE]
 AmtExpected(ev) ==
     LET items == SplitOn(StrToCodes(ev.text), 44, <<>>)
-        parsed == [i \in 1..Len(items) |-> ParseAmount(items[i])]
+        parsed == [i \in 1..Len(items) |-> ParseAmountX(items[i])]
     IN IF \E i \in 1..Len(items) : ~parsed[i][1] THEN [ok |-> FALSE, amounts |-> <<>>]
        ELSE [ok |-> TRUE, amounts |-> [i \in 1..3 |-> IF i <= Len(items) THEN <<IsNeg(parsed[i][2]), BytesToHex(Mag(parsed[i][2]))>> ELSE <<FALSE, "">>]]
+\* a zero mantissa with an exponent part: not compared (Amounts.tla)
+AmtUnspec(ev) == LET items == SplitOn(StrToCodes(ev.text), 44, <<>>) IN \E i \in 1..Len(items) : ParseAmountX(items[i])[3]
 AmtObserved(ev) == [ok |-> ev.ok, amounts |-> IF ev.ok THEN [i \in 1..3 |-> IF i <= Len(ev.amounts) THEN <<ev.amounts[i][1], ev.amounts[i][2]>> ELSE <<FALSE, "??">>] ELSE <<>>]
 
 (* ---- C06: the tap tool: address, witness (script + control block), reported signature hash ---- *)
@@ -158,7 +160,9 @@ Next ==
                           [id |-> BytesToHex(Reverse(TxId(t))), pfx |-> BytesToHex(Take(Reverse(TxId(t)), 0, 5)), ver |-> BytesToHex(t.version),
                            nin |-> Len(t.vin), nout |-> Len(t.vout), lock |-> BytesToHex(t.locktime)]
             IN Judge(ev, [tx |-> d(ev.tx), txin |-> d(ev.txin)], [tx |-> ev.shown_tx, txin |-> ev.shown_in], <<"IdsShown", ev.kind>>)
-       ELSE IF ev.e = "Amt" THEN Judge(ev, AmtExpected(ev), AmtObserved(ev), <<"Amt", ev.ok>>)
+       ELSE IF ev.e = "Amt" THEN
+            (IF AmtUnspec(ev) THEN /\ stats' = [stats EXCEPT !.calls = @ + 1] /\ cov' = cov \cup {<<"Amt", "zero-with-exponent">>} /\ UNCHANGED divs
+             ELSE Judge(ev, AmtExpected(ev), AmtObserved(ev), <<"Amt", ev.ok, \E i \in 1..Len(StrToCodes(ev.text)) : StrToCodes(ev.text)[i] \in {101, 69}>>))
        ELSE IF ev.e = "FlagList" THEN Judge(ev, FlagListExpected(ev), FlagListObserved(ev), <<"FlagList", ev.accepted, Len(ev.flags)>>)
        ELSE IF ev.e = "DefaultFlags" THEN Judge(ev, DefaultExpected(ev), DefaultObserved(ev), <<"DefaultFlags">>)
        ELSE IF ev.e = "MonoPair" THEN Judge(ev, MonoExpected(ev), MonoObserved(ev), <<"MonoPair", ev.okA, ev.okB>>)
